@@ -15,7 +15,7 @@ import re
 from fractions import Fraction
 
 from ..common import origin_mentions, module_region, short, where
-from ..exprs import simplify, closure_of, is_param, mentions, mentions_param, strip
+from ..exprs import inline_top, ELEM, loop_built_vec, simplify, closure_of, is_param, mentions, mentions_param, strip
 from ..fold import Folder, Unfoldable
 from ..mirlib import Expr, Program, expr_str
 
@@ -62,6 +62,9 @@ def run(run):
                 else:
                     run.bad("C06.P2", "dispatch-missing/%s::%s" % (short(ty), v), where(b), "%s::absolute_position does not translate variant %s" % (short(ty), v))
             continue
+        if len(rets) == 1 and (rets[0][0] != "agg" or rets[0][1] != ty):
+            # built by a constructor helper of the type (`self.with_line(self.line.absolute_position(cell))`)
+            rets = [inline_top(prog, rets[0], keep=r"::absolute_position$")]
         if len(rets) != 1 or rets[0][0] != "agg" or rets[0][1] != ty:
             run.bad("C06.P2", "abs-shape/%s" % short(ty), where(b), "%s::absolute_position does not return one `%s {..}` aggregate" % (short(ty), short(ty)))
             continue
@@ -94,6 +97,13 @@ def run(run):
                             capcell = [k for k, v in caps.items() if is_param(v, 2, ())]
                             ok = len(r) == 1 and r[0][0] == "call" and r[0][1] == cap and bool(capcell) and \
                                 strip(r[0][2][0])[0] == "param" and strip(r[0][2][0])[1] == 1 and is_param(r[0][2][1], 2, ())
+                if not ok:
+                    # the same vector filled by a `for` loop
+                    lb = loop_built_vec(prog, p, e)
+                    if lb:
+                        src, el = lb
+                        el = strip(el)
+                        ok = selff(src) and el[0] == "call" and el[1] == cap and is_param(el[2][0], 2, ()) and strip(el[2][1]) == ELEM
             elif fty in aps:
                 ok = e[0] == "call" and e[1] == aps[fty] and selff(e[2][0]) and is_param(e[2][1], 2, ())
             elif fty == "svgbob::buffer::cell_buffer::span::Span":
